@@ -21,7 +21,8 @@ fn rand_name(r: &mut Rng) -> Vec<Vec<u8>> {
 fn rand_rr(r: &mut Rng, names: &[Vec<Vec<u8>>]) -> ResourceRecord<'static> {
     let name = mk_name(&r.pick(names)[..]);
     let class = if r.chance(1, 8) { CLASS::CH } else { CLASS::IN };
-    let rdata = match r.below(9) {
+    let rdata = match r.below(10) {
+        9 => RData::NULL(10, NULL::new(&[7, 7]).unwrap()),
         6 => RData::CNAME(CNAME(mk_name(&r.pick(names)[..]))),
         7 => RData::NS(NS(mk_name(&r.pick(names)[..]))),
         8 => RData::HINFO(HINFO { cpu: crate::gen::mk_cs(b"c"), os: crate::gen::mk_cs(b"o") }),
@@ -80,7 +81,7 @@ pub fn c13(tier: &str, seed: u64) -> Vec<Case> {
         // the query
         let mut q = Packet::new_query(r.next() as u16);
         for _ in 0..r.range(0, 2) {
-            let qt = match r.below(12) { 10 => *r.pick(&[QTYPE::AXFR, QTYPE::IXFR, QTYPE::MAILA]), 11 => QTYPE::TYPE(TYPE::MX), 0 | 7 => QTYPE::ANY, 8 => QTYPE::TYPE(TYPE::CNAME), 9 => QTYPE::TYPE(TYPE::NS), 1 => QTYPE::MAILB, 2 => QTYPE::TYPE(TYPE::SRV), 3 => QTYPE::TYPE(TYPE::AAAA), 4 => QTYPE::TYPE(TYPE::PTR), 5 => QTYPE::TYPE(TYPE::TXT), _ => QTYPE::TYPE(TYPE::A) };
+            let qt = match r.below(13) { 12 => QTYPE::TYPE(TYPE::NULL), 10 => *r.pick(&[QTYPE::AXFR, QTYPE::IXFR, QTYPE::MAILA]), 11 => QTYPE::TYPE(TYPE::MX), 0 | 7 => QTYPE::ANY, 8 => QTYPE::TYPE(TYPE::CNAME), 9 => QTYPE::TYPE(TYPE::NS), 1 => QTYPE::MAILB, 2 => QTYPE::TYPE(TYPE::SRV), 3 => QTYPE::TYPE(TYPE::AAAA), 4 => QTYPE::TYPE(TYPE::PTR), 5 => QTYPE::TYPE(TYPE::TXT), _ => QTYPE::TYPE(TYPE::A) };
             let qc = match r.below(6) { 0 => QCLASS::ANY, 1 => QCLASS::CLASS(CLASS::CH), _ => QCLASS::CLASS(CLASS::IN) };
             let qn = if !pool.is_empty() && r.chance(2, 3) { r.pick(&pool).name.clone() } else { mk_name(&r.pick(&names)[..]) };
             q.questions.push(Question::new(qn, qt, qc, r.chance(1, 4)));
@@ -207,7 +208,9 @@ fn history(seed: u64, steps: usize) -> Vec<Case> {
                         let wire = p.build_bytes_vec_compressed().unwrap();
                         let parsed = Packet::parse(&wire).unwrap();
                         let ptxt = text::packet(&parsed);
-                        let mut ch = None;
+                        // with and without an on_discovery channel (its receiver kept alive): what is cached is the same
+                        let (dtx, _drx) = std::sync::mpsc::channel();
+                        let mut ch = if r.chance(1, 2) { Some(dtx) } else { None };
                         t0 = Instant::now();
                         simple_mdns::verif::sync_add_response_to_resources(parsed, &svc_local, &own_local, &mut mgr, &mut ch);
                         t1 = Instant::now();
